@@ -54,6 +54,7 @@ _io_op = st.one_of(
     st.fixed_dictionaries({'k': st.just('print'), 'args': st.lists(st.sampled_from(TEXTS), max_size=3), 'sep': st.sampled_from(SEPS), 'end': st.sampled_from(ENDS)}),
     st.fixed_dictionaries({'k': st.just('print'), 'args': st.lists(st.sampled_from(TEXTS), max_size=2), 'sep': st.just(' '), 'end': st.just('\n')}),
     st.fixed_dictionaries({'k': st.just('write'), 'text': st.sampled_from(TEXTS)}),
+    st.fixed_dictionaries({'k': st.just('writelines'), 'texts': st.lists(st.sampled_from(TEXTS), max_size=3), 'gen': st.booleans()}),
     st.fixed_dictionaries({'k': st.just('input'), 'prompt': st.sampled_from(PROMPTS)}),
     st.fixed_dictionaries({'k': st.just('stderr'), 'text': st.sampled_from(TEXTS)}),
     st.fixed_dictionaries({'k': st.just('nothing')}),
@@ -89,6 +90,8 @@ def render(script, indent=''):
             lines.append('%sprint(%s)' % (indent, ', '.join([repr(a) for a in op['args']] + ['sep=%r' % op['sep'], 'end=%r' % op['end']])))
         elif k == 'write':
             lines.append('%ssys.stdout.write(%r)' % (indent, op['text']))
+        elif k == 'writelines':
+            lines.append('%ssys.stdout.writelines(%s)' % (indent, ('(t for t in %r)' if op['gen'] else '%r') % (op['texts'],)))
         elif k == 'input':
             lines.append('%s_got.append(input(%r))' % (indent, op['prompt']))
         elif k == 'stderr':
@@ -115,6 +118,7 @@ class Model:
         """Returns (text written, inputs consumed, raised)."""
         cal = calibrate()
         text, used = [], []
+        self.ended_by = None
 
         def go(ops):
             for op in ops:
@@ -123,10 +127,13 @@ class Model:
                     text.append(op['sep'].join(op['args']) + op['end'])
                 elif k == 'write':
                     text.append(op['text'])
+                elif k == 'writelines':
+                    text.append(''.join(op['texts']))
                 elif k == 'input':
                     text.append(str(op['prompt']) + cal['suffix'])
                     used.append(self.queue.pop(0) if self.queue else cal['default'])
                 elif k in ('raise', 'interrupt'):
+                    self.ended_by = k
                     return True
                 elif k == 'loop':
                     for _ in range(op['n']):
@@ -162,6 +169,11 @@ class Stepper:
         from pedal.core.report import MAIN_REPORT
         from pedal.sandbox.commands import get_sandbox
         calibrate()
+        import io
+        import sys
+        sys.stdin = io.StringIO('')      # should the real input() ever be reached, it ends at once instead of waiting for a terminal
+        from pedal.sandbox import mocked
+        mocked.PrintingStringIO._ORIGINAL_STDOUT = self.console = io.StringIO()     # the console of this history
         MAIN_REPORT.full_clear()
         contextualize_report(BASE)
         self.sb = get_sandbox()
@@ -172,7 +184,7 @@ class Stepper:
         self.flags = set()
 
     def op_strategy(self):
-        run = st.fixed_dictionaries({'op': st.just('run'), 'script': _script,
+        run = st.fixed_dictionaries({'op': st.just('run'), 'real_io': st.sampled_from([False, False, False, True]), 'script': _script,
                                      'inputs': st.one_of(st.none(), st.none(), st.lists(st.sampled_from(INPUT_VALUES), max_size=3))})
         call_inputs = st.one_of(st.none(), st.none(), st.just([]), st.just(''), st.sampled_from(INPUT_VALUES), st.lists(st.sampled_from(INPUT_VALUES), max_size=2),
                                 st.just(0), st.just(()))
@@ -194,7 +206,8 @@ class Stepper:
                                                                                  st.lists(st.one_of(st.sampled_from(INPUT_VALUES), st.integers(0, 5)), max_size=3)),
                                    'clear': st.booleans(), 'as_tuple': st.booleans()}),
             st.fixed_dictionaries({'op': st.just('queue_input'), 'values': st.lists(st.sampled_from(INPUT_VALUES), max_size=3)}),
-            st.just({'op': 'clear_input'}))
+            st.just({'op': 'clear_input'}), st.just({'op': 'set_input_live'}),
+            st.fixed_dictionaries({'op': st.just('real_io_then_set'), 'values': st.lists(st.sampled_from(INPUT_VALUES), max_size=3)}))
         # a second, unrelated sandbox (e.g. for a reference solution) used next to the student's one: must not show in the student's record
         other = st.fixed_dictionaries({'op': st.just('other_sandbox'), 'action': st.sampled_from(['new', 'run', 'run', 'clear_output', 'set_input']),
                                        'text': st.sampled_from(TEXTS[:8])})
@@ -244,16 +257,23 @@ class Stepper:
         try:
             if kind == 'run':
                 code = 'import sys\n_got = []\n' + render(op['script']) + '\n'
-                if op['inputs'] is not None:
-                    self.model.set_input(list(op['inputs']), True)
+                if op['inputs'] is not None or op.get('real_io'):
+                    self.model.set_input(list(op['inputs'] or []), True)
                     self.queue_op_pending = True
                 n_inputs = len(self.model.queue)
                 t, used, raised = self.model.execute(op['script'])
+                if op.get('real_io') and self.model.ended_by != 'interrupt':
+                    self.model.set_input(None, True)      # run(real_io=True) ends with clear_input() (not reached when a KeyboardInterrupt goes to the grader)
                 if len(used) > n_inputs:
                     self.flags_pending.add('exhausted')
                 interrupted = any(o['k'] == 'interrupt' for o in op['script']) or any(o['k'] == 'interrupt' for l in op['script'] if l['k'] == 'loop' for o in l['body'])
                 try:
-                    if op['inputs'] is not None:
+                    if op.get('real_io'):
+                        # print is let through to the console as well (the harness's sink); the inputs still come from the queue
+                        # (never from the real stdin: an empty queue is given when the op has none)
+                        self.flags.add('real-io-run')
+                        sb.run(code, filename='answer.py', inputs=list(op['inputs'] or []), real_io=True)
+                    elif op['inputs'] is not None:
                         sb.run(code, filename='answer.py', inputs=list(op['inputs']))
                     else:
                         sb.run(code, filename='answer.py')
@@ -370,6 +390,19 @@ class Stepper:
             elif kind == 'queue_input':
                 C.queue_input(*op['values'])
                 self.model.set_input(tuple(op['values']), False)
+                self.queue_op_pending = True
+            elif kind == 'set_input_live':
+                # the queue as get_input() hands it out, given back unchanged
+                C.set_input(C.get_input())
+                self.flags.add('live-queue-handed-back')
+                self.queue_op_pending = True
+            elif kind == 'real_io_then_set':
+                # the instructor lets one part of the grading talk to the console, then goes back to scripted inputs
+                C.allow_real_io()
+                C.set_input(list(op['values']))
+                sb.clear_mocked_function('print')
+                self.model.set_input(list(op['values']), True)
+                self.flags.add('scripted-inputs-after-real-io')
                 self.queue_op_pending = True
             elif kind == 'clear_input':
                 C.clear_input()
